@@ -22,7 +22,7 @@ from fractions import Fraction
 from engine import term as T, agg, build, vg, poly as P, polycheck as PC
 from engine.agg import ELEM, TU
 from engine.report import HOLDS, VIOLATED, UNDECIDED
-from .common import Analysed, fn_where
+from .common import Analysed, fn_where, narrowing
 from .c09 import ortho_check
 from .c05 import ONE
 
@@ -399,6 +399,7 @@ def main(rep, ws, tier):
             rep.ob('Euler(XYZ).toMatrix44 == Matrix44::setEulerAngles<%s>' % E, 'R11.xyz', UNDECIDED, str(e))
         check_anglemod(rep, R, t)
         check_xeuler(rep, R, t)
+    narrowing(rep, ws, [gen('d', orders), gen_near('d')], 'R11.prec', allow={'Euler<double>::angleMod': 'angleMod is single precision by the statement of C11', 'Euler<double>::simpleXYZRotation': 'through angleMod, single precision by the statement of C11'})
     rep.floor('per-order obligations', sum(1 for o in rep.obs if o['rule'] in ('R11.order', 'R11.m', 'R11.x', 'R11.q')), 96 * len(types))
     rep.extra['orders_enumerated'] = len(ORDERS)
     rep.extra['exhaustive_over_orders'] = True
